@@ -148,6 +148,13 @@ def execOp (chk : Bool) (tok : List String) : String :=
       renderRes (fun o => match o with
         | none => "Exhausted"
         | some (f, g) => renderInts f ++ " " ++ renderInts g) (KeygenSkel.firstCandidate chk (parseNat n) sd)
+  | ["first_drawn", n, seed] =>
+      -- what the real `gen_b0(seed)` draws first must be what the model derives from the unchanged seed
+      let sd := parseHex seed
+      let sd := sd ++ List.replicate (32 - sd.length) 0
+      renderRes (fun o => match o with
+        | none => "Exhausted"
+        | some (f, g) => renderInts f ++ " " ++ renderInts g) (KeygenSkel.firstCandidate chk (parseNat n) sd)
   | ["key_check", n, f, g, cf, cg, h] =>
       KeygenSkel.keyCheck (parseNat n) (parseInts f) (parseInts g) (parseInts cf) (parseInts cg) (parseNats h)
   | ["sk_codec", n, f, g, cf, cg, hx] =>
